@@ -158,6 +158,7 @@ func lemma_deps_rdeps_inverse(g *DirectedTargetGraph, n, d model.BuildNode) ([]m
 
 //@ func (*Walker).Walk(w, ctx) (m, err)
 //@   note exclusive w
+//@   ensures [cancellation_returns_without_waiting_for_routines] !(received(doneCh(ctx)) && received(done))
 //@   requires [graph] nodesWF(w.graph) && absEdges(w.graph) && absOutEdges(w.graph) && endpointsAreNodes(w.graph) && w.completions != nil && w.nodeInfoMap != nil
 //@ loop #1
 //@   invariant [registered_are_selected] forall j int :: {registrations[j]} 0 <= j && j < len(registrations) ==> isNode(registrations[j].node) && isSel(registrations[j].node)
